@@ -38,7 +38,8 @@ func init() {
 		if tier != "thorough" {
 			cfgs = []cfg{{1, 4}, {2, 16}}
 		}
-		deadline := 12 * time.Second
+		deadline := 6 * time.Second
+		poolDead := false // a call hung: this pool is not used any further
 		for ci, c := range cfgs {
 			fb, pb := newFake(fmt.Sprintf("c13-%d-", ci))
 			opts := batched.Opts{BatchSize: c.batch, BatchDelayMicros: 300}
@@ -109,6 +110,7 @@ func init() {
 				case m := <-done:
 					return m
 				case <-time.After(deadline):
+					poolDead = true
 					return fmt.Sprintf("caller %d: %s did not return within %v", gi, pc.kind, deadline)
 				}
 			}
@@ -149,12 +151,18 @@ func init() {
 				shapes = []int{1, 2, 3, 6, 12}
 			}
 			for _, n := range shapes {
+				if poolDead {
+					break
+				}
 				maxIdx := n * 3
 				if tier != "thorough" && maxIdx > 8 {
 					maxIdx = 8
 				}
-				for idx := 0; idx <= maxIdx; idx++ {
+				for idx := 0; idx <= maxIdx && !poolDead; idx++ {
 					for _, ck := range kindsCut {
+						if poolDead {
+							break
+						}
 						if tier != "thorough" && r.Intn(3) != 0 && !(idx <= 1 && ck.mid <= 10) {
 							continue
 						}
@@ -200,11 +208,27 @@ func init() {
 							bad = true
 							fail("pool-dead-after-cut", "after the cut a new set: "+m, map[string]interface{}{"cut_index": idx, "cut": ck.n})
 						}
-						hh, _ := memcached.Batched(pb, opts)()
-						rs, err := drainGet(hh.Get(common.GetRequest{Keys: [][]byte{k}, Opaques: []uint32{1}, Quiet: []bool{false}}))
-						if err != nil || len(rs) != 1 || rs[0].Miss || !bytes.Equal(rs[0].Data, valueFor(k, 7)) {
-							bad = true
-							fail("pool-wrong-after-cut", fmt.Sprintf("after the cut a set followed by a get returned %v / %v", rs, err), map[string]interface{}{"cut_index": idx, "cut": ck.n})
+						if !poolDead {
+							hh, _ := memcached.Batched(pb, opts)()
+							type gres struct {
+								rs  []common.GetResponse
+								err error
+							}
+							gch := make(chan gres, 1)
+							go func() {
+								rs, err := drainGet(hh.Get(common.GetRequest{Keys: [][]byte{k}, Opaques: []uint32{1}, Quiet: []bool{false}}))
+								gch <- gres{rs, err}
+							}()
+							select {
+							case g := <-gch:
+								if g.err != nil || len(g.rs) != 1 || g.rs[0].Miss || !bytes.Equal(g.rs[0].Data, valueFor(k, 7)) {
+									bad = true
+									fail("pool-wrong-after-cut", fmt.Sprintf("after the cut a set followed by a get returned %v / %v", g.rs, g.err), map[string]interface{}{"cut_index": idx, "cut": ck.n})
+								}
+							case <-time.After(deadline):
+								bad, poolDead = true, true
+								fail("pool-dead-after-cut", "after the cut a new get did not return within the deadline", map[string]interface{}{"cut_index": idx, "cut": ck.n})
+							}
 						}
 						if !bad {
 							rep.Validated++
@@ -217,7 +241,7 @@ func init() {
 			if tier == "thorough" {
 				storms = 10
 			}
-			for s := 0; s < storms; s++ {
+			for s := 0; s < storms && !poolDead; s++ {
 				warm()
 				stop := make(chan struct{})
 				go func() {
@@ -272,7 +296,7 @@ func init() {
 			if tier == "thorough" {
 				outages = 4
 			}
-			for o := 0; o < outages; o++ {
+			for o := 0; o < outages && !poolDead; o++ {
 				warm()
 				fb.StopListening()
 				fb.CloseAll()
@@ -302,12 +326,21 @@ func init() {
 				}
 				// new calls complete normally (allow the reconnect back-off to finish)
 				okAfter := false
-				for try := 0; try < 40 && !okAfter; try++ {
+				for try := 0; try < 40 && !okAfter && !poolDead; try++ {
 					hh, _ := memcached.Batched(pb, opts)()
-					if err := hh.Set(common.SetRequest{Key: []byte("after-outage"), Data: valueFor([]byte("after-outage"), 1)}); err == nil {
-						okAfter = true
-					} else {
-						time.Sleep(50 * time.Millisecond)
+					ech := make(chan error, 1)
+					go func() {
+						ech <- hh.Set(common.SetRequest{Key: []byte("after-outage"), Data: valueFor([]byte("after-outage"), 1)})
+					}()
+					select {
+					case err := <-ech:
+						if err == nil {
+							okAfter = true
+						} else {
+							time.Sleep(50 * time.Millisecond)
+						}
+					case <-time.After(deadline):
+						poolDead = true
 					}
 				}
 				if !okAfter {
@@ -318,8 +351,14 @@ func init() {
 					rep.Validated++
 				}
 			}
-			h0.Close()
+			if !poolDead {
+				h0.Close()
+			}
 			fb.StopListening()
+			if poolDead {
+				// the goroutines of a hung pool stay around; do not start further configurations on top
+				break
+			}
 		}
 		rep.Distinct = len(distinct)
 	}
